@@ -8,11 +8,13 @@ PROP = dict(
                  "mom_by_page": ("mom_by_page_run", "rpc_out_eqb", "(Z * Z * Z) * (Z * list Z * Z)"),
                  "mom_store_range": ("mom_store_range_run", "paged_api_eqb", "(Z * Z * bool * Z) * option (list Z)"),
                  "epoch_page": ("epoch_page_run", "zlist_eqb", "(Z * Z * Z) * list Z"),
-                 "GetRange": ("GetRange18_run", "zz18_eqb", "(Z * Z * Z) * (Z * Z)")}},
+                 "GetRange": ("GetRange18_run", "zz18_eqb", "(Z * Z * Z) * (Z * Z)"),
+                 "rpc_session": ("rpc_session_run", "rpc_session_eqb", "(Transport * list Doc) * list ReplyDoc")}},
     suites=[{"bin": "c18", "name": "paging", "n": {"quick": 3, "thorough": 60}},
             {"bin": "c18", "name": "rewards", "n": {"quick": 1, "thorough": 8}},
             {"bin": "c18", "name": "json", "n": {"quick": 4, "thorough": 60}},
             {"bin": "c18", "name": "server", "n": {"quick": 250, "thorough": 4000}},
+            {"bin": "c18", "name": "hostile", "n": {"quick": 260, "thorough": 6000}, "timeout": 3000},
             {"bin": "pure", "name": "pure", "n": {"quick": 1500, "thorough": 20000}, "args": ["GetRange"]}],
     rule="paging: random histories on the real node (token issues, fusions, stakes, transfers, receives, blocks left in the pool); every paged list API "
          "(token.GetAll/GetByOwner, pillar.GetAll, plasma/stake entries, sentinel, spork, accelerator (no size limit), ledger unconfirmed/unreceived) called in-process with "
